@@ -3,8 +3,8 @@
    `Wn N = 2^(64 N)`; the modulus is the limb list `m` (p = val m), quantified over: every
    length N and every odd value. *)
 From V Require Import Base.Word C15.BigIntModel C01.InvModel C01.InvProofs C01.MontModel
-  C01.MontProofs C01.SquareProofs C01.BitsProofs C01.SopProofs C01.ConvProofs C01.Batch C01.BatchProofs.
-Require Import Field_theory.
+  C01.MontProofs C01.SquareProofs C01.BitsProofs C01.SopProofs C01.ConvProofs C01.InverseProofs C01.InverseStd C01.BatchMont C01.DisplayProofs C01.Batch C01.BatchProofs.
+Require Import Field_theory Znumtheory.
 
 (* INV = -p^-1 mod 2^64, for every odd low limb (the 63-step square-and-multiply of `inv`) *)
 Theorem C01_inv : forall m0, 0 <= m0 < W64 -> m0 mod 2 = 1 ->
@@ -217,6 +217,36 @@ Theorem C01_chunk_bound : forall m (M : nat), wf m -> m <> [] ->
   (Z.of_nat M + 1) * val m <= Wn (length m).
 Proof. exact chunk_bound. Qed.
 
+(* Display prints the standard value (decimal, C15 `display`), and FromStr reads it back *)
+Theorem C01_display : forall m a, wf m -> val m mod 2 = 1 -> elem_ok m a ->
+  parse_signed (display_fp m a) = Some (std m a).
+Proof. exact display_fp_spec. Qed.
+Theorem C01_display_from_str_roundtrip : forall (d : bool) m a, wf m -> val m mod 2 = 1 ->
+  elem_ok m a -> from_str d m (display_fp m a) = StrOk a.
+Proof. exact display_from_str_roundtrip. Qed.
+
+(* inverse (binary extended Euclid with b, c kept in Montgomery form; the `|= 1 << 63` repair
+   when there is no spare bit): None exactly at zero; any Some r is canonical and is the
+   inverse; the loop terminates whenever gcd(a, p) = 1 *)
+Theorem C01_inverse : forall m a, wf m -> val m mod 2 = 1 -> wf a -> length a = length m ->
+  val a < val m ->
+  (val a = 0 -> inverse m a = InvNone) /\
+  (val a <> 0 -> inverse m a <> InvNone) /\
+  (forall r, inverse m a = InvSome r ->
+     wf r /\ length r = length m /\ val r < val m /\
+     (val r * val a) mod val m = (Wn (length m) * Wn (length m)) mod val m).
+Proof. exact inverse_partial. Qed.
+Theorem C01_inverse_terminates : forall m a, wf m -> val m mod 2 = 1 -> wf a ->
+  length a = length m -> val a < val m -> rel_prime (val a) (val m) ->
+  inverse m a <> InvOutOfFuel.
+Proof. exact inverse_terminates. Qed.
+(* standard form, prime modulus (premise `prime (val m)` is mathematics, not code) *)
+Theorem C01_inverse_prime : forall m a, wf m -> val m mod 2 = 1 -> prime (val m) ->
+  wf a -> length a = length m -> val a < val m -> val a <> 0 ->
+  exists r, inverse m a = InvSome r /\ wf r /\ length r = length m /\ val r < val m /\
+            (std m r * std m a) mod val m = 1.
+Proof. exact inverse_prime. Qed.
+
 (* conversions (all in standard form; `last m 0 <> 0` = the modulus really has N limbs, as the
    derive macro guarantees) *)
 Theorem C01_from_int : forall (d : bool) m bits (signed : bool) x, wf m -> val m mod 2 = 1 ->
@@ -259,6 +289,18 @@ Theorem C01_batch_inversion : forall (K : Type) (zero one : K) (add mul sub : K 
   batch_inversion_and_mul one mul inv is0 v coeff =
   map (fun f : K => if is0 f then f else mul coeff (inv f)) v.
 Proof. exact batch_inversion_and_mul_spec. Qed.
+
+(* the same algorithm instantiated on Montgomery limbs exactly as Run.v / the harness run it
+   (one = R, mul = mul_assign, inverse = MontConfig::inverse, is_zero): zeros are returned
+   unchanged, every non-zero entry a becomes the canonical b with b * a = coeff in Z_p.
+   Premise `prime (val m)`: mathematics about the modulus. *)
+Theorem C01_batch_inversion_mont : forall (derived : bool) m v coeff,
+  wf m -> val m mod 2 = 1 -> prime (val m) ->
+  Forall (elem_ok m) v -> elem_ok m coeff ->
+  let r := batch_inversion_and_mul (R_of m) (mul_assign derived m) (inv_fn m) is_zero v coeff in
+  Forall2 (fun a b => elem_ok m b /\
+             (if val a =? 0 then b = a else (std m b * std m a) mod val m = std m coeff)) v r.
+Proof. exact batch_inversion_mont_spec. Qed.
 
 (* non-vacuity: bls12_381 Fr (N = 4, spare bit, both rules eligible) satisfies the premises;
    (p-1)*(p-1) in Montgomery limbs; secp256k1 (no spare bit) for add with carry-out *)
